@@ -49,7 +49,8 @@ Decl == <<
   [kind |-> "account",   name |-> "assets:bank",   format |-> ""],
   [kind |-> "account",   name |-> "expenses:food", format |-> ""],
   [kind |-> "commodity", name |-> "USD",           format |-> "1,000.00 USD"],
-  [kind |-> "commodity", name |-> "EUR",           format |-> "1.000,00 EUR"]
+  [kind |-> "commodity", name |-> "EUR",           format |-> "1.000,00 EUR"],
+  [kind |-> "commodity", name |-> "EUR",           format |-> "1,000.00 EUR"]      \* the same commodity declared differently: which file wins follows the include order
 >>
 DeclIds == 1..Len(Decl)
 
